@@ -37,7 +37,7 @@ def jobs(tier, seed):
     out = []
     s3 = M.structures(M.MENU3, 3)
     if tier == 'quick':
-        idx = sorted(set(list(range(0, len(s3), 3)) + [s3.index((('A', 'B'), ('B', 'C'), ('C', 'A')))]))
+        idx = sorted(set(list(range(0, len(s3), 3)) + [s3.index((('A', 'B'), ('B', 'C'), ('C', 'A'))), s3.index((('B',), ('A', 'B'), ('B', 'C')))]))
         for si in idx:
             for eng in ['MD', 'RDA', 'IG']:
                 out.append({'dom': 3, 'si': si, 'truth': ['pos', 'sparse'][si % 2], 'engine': eng, 'total': 'known' if si % 4 else 'none',
